@@ -142,6 +142,9 @@ def Val.at (v : Val) : Path → Option Val
     | some c => c.at p
     | Option.none => Option.none
 
+/-- python dicts have distinct keys: every dict inside `v` does -/
+def Val.KeysNodup (v : Val) : Prop := ∀ p kvs, v.at p = some (.dict kvs) → (keysOf kvs).Nodup
+
 /-- what one level of `_wrapped` does to a companion when it descends into child `s` of `v` -/
 def selStep (v : Val) (s : Step) (c : Val) : Val :=
   match v, s with
